@@ -32,6 +32,9 @@ def main(argv=None):
         if ns.replay:
             body = json.load(open(ns.replay))
             case = ast.literal_eval(body["case_repr"])
+            if body.get("config") == "registered-subclasses":
+                from mc import custom
+                custom.install()
             res = mod.replay(case)
             fails = [f for f in res.get("fails", ())]
             print(json.dumps({"case": body["case_repr"], "outcome": res.get("outcome"),
